@@ -2,7 +2,7 @@
      Linear / Minmax / Zscore / Log ._transform (153-211)                      -> apply1
      Variable.normalize / denormalize (362-422): a chain of transforms applied in order; the variable's current
        domain (lb, ub) and, for a Normal distribution, (mu, std) are carried along as "hyper-parameters", are
-       themselves pushed through every transform, and OVERRIDE the first two arguments of a Minmax resp. the
+       themselves pushed through every transform (std as the length |T(mu+std) - T(mu)|), and OVERRIDE the first two arguments of a Minmax resp. the
        arguments of a Zscore at each stage                                      -> normalize / denormalize
    The logarithm and exponential are parameters of the model (lg, ex); the extracted instance is only run on chains
    without Log.  No proofs in this file. *)
@@ -41,11 +41,12 @@ Definition apply1 (t : tr) (inverse : bool) (h : hyper) (x : F) : F :=
       if inverse then x * std' + mu' else (x - mu') / std'
   end.
 
-(* the hyper-parameters are transformed like values (forward direction), every entry with the same overrides *)
+(* the hyper-parameters are transformed like values (forward direction), every entry with the same overrides; the standard
+   deviation is a length, not a location: it becomes |f (mu + std) - f mu| (_normalize_hyperparams) *)
 Definition push_hyper (t : tr) (h : hyper) : hyper :=
   let f := apply1 t false h in
   mkhyper (match h_dom h with Some (a, b) => Some (f a, f b) | None => None end)
-          (match h_dist h with Some (a, b) => Some (f a, f b) | None => None end).
+          (match h_dist h with Some (a, b) => Some (f a, absF K (f (a + b) - f a)) | None => None end).
 
 Fixpoint normalize (chain : list tr) (h : hyper) (x : F) : F :=
   match chain with
